@@ -623,7 +623,13 @@ void cmi_process_cancel_awaiteds(struct cmb_process *pp)
         else if (pa->type == CMI_PROCESS_AWAITABLE_RESOURCE) {
             cmb_assert_debug(pa->ptr != NULL);
             struct cmb_resourceguard *rgp = pa->ptr;
-            (void)cmb_resourceguard_remove(rgp, pp);
+            if (!cmb_resourceguard_remove(rgp, pp)) {
+                /*
+                 * Already let through with its wakeup call pending. That is
+                 * canceled below, so give the next process in line the turn.
+                 */
+                (void)cmb_resourceguard_signal(rgp);
+            }
         }
         else if (pa->type == CMI_PROCESS_AWAITABLE_PROCESS) {
             /* Waits for a process to end, remove ourselves from the waiter list */
